@@ -169,7 +169,7 @@ class _Grid:
         """Return an AgentSet with the agents in the space."""
         agents = []
         for entry in self:
-            if not entry:
+            if entry is None:
                 continue
             if not isinstance(entry, list):
                 entry = [entry]  # noqa PLW2901
